@@ -129,6 +129,7 @@ theorem inner_keeps_open (t : TestInfo) (g : Bytes) : ∀ (l : List Ev) (s : St)
       simp only [runB, msgsFrom_cons, stAfter_cons, msgsOf, step, List.cons_append, List.nil_append, balRun, balStep, hf,
         if_true]
       exact ih
+    | testRun _ _ => exact absurd he (by simp [okEv])
     | testsStarted => exact absurd he (by simp [okEv])
     | groupStarted _ => exact absurd he (by simp [okEv])
     | testStarted _ => exact absurd he (by simp [okEv])
@@ -259,6 +260,7 @@ theorem inner_failures_open (t : TestInfo) : ∀ (l : List Ev) (s : St), InnerOK
     | failure f =>
       have hf : f.testName = t.name := he
       simpa [msgsFrom_cons, msgsFrom_nil, msgsOf, failuresInOpenTest, openAfter, hf] using ih
+    | testRun _ _ => exact absurd he (by simp [okEv])
     | testsStarted => exact absurd he (by simp [okEv])
     | groupStarted _ => exact absurd he (by simp [okEv])
     | testStarted _ => exact absurd he (by simp [okEv])
